@@ -225,6 +225,14 @@ class Set(T):
         idx = z3.Array(fresh_name(name + ".idx"), self.k.z3sort(), z3.IntSort()) if self.ordered else None
         return SSet(self.k, has, keys, idx)
 
+    def z3sort(self):
+        if self.ordered:
+            raise Unsupported("ordered sets have no single z3 sort")
+        return z3.ArraySort(self.k.z3sort(), z3.BoolSort())
+
+    def wrap(self, z):
+        return SSet(self.k, z)
+
 
 class Opt(T):
     def __init__(self, t: T):
@@ -767,6 +775,8 @@ def to_z3(v, t: T):
             return t.consts[v]
     if isinstance(t, Tup) and isinstance(v, tuple) and len(v) == len(t.ts):
         return t.pack(v)
+    if isinstance(t, Set) and isinstance(v, SSet) and not t.ordered:
+        return v.has
     if z3.is_expr(v):
         return v
     raise Unsupported(f"cannot convert {v!r} to {t!r}")
